@@ -24,9 +24,12 @@
    buffer, in order) and slog (messages its feeder sent, in order); sendlog (all messages sent
    to the pipe, in order, each tagged with the process whose feeder wrote it) and getlog (all
    messages received, in order).
-   Failure of the feeder: `obj = ForkingPickler.dumps(obj)` raises for unpicklable messages;
-   in Queue._feed the handler `except Exception` is OUTSIDE `while 1`, so the thread's function
-   returns (QExit): the popped message and its capacity token are gone with it.
+   Failure of serialisation: `obj = ForkingPickler.dumps(obj)` raises for unpicklable messages;
+   in Queue._feed the handler `except Exception` is INSIDE `while 1` (since the repair 36337df):
+   the error is logged, the popped message is dropped, `queue_sem.release()` gives its capacity
+   token back and the thread goes on.  (Before the repair the handler was outside the loop and
+   the thread's function returned: QExit, kept in the language so that the translator can still
+   follow that code -- the popped message and its token were then gone with the thread.)
    Deadlines: `timeout = deadline - monotonic()` is a scheduling point (QClock) whose outcome
    (time left / deadline passed) is chosen by the scheduler. *)
 From Coq Require Import ZArith List Bool.
@@ -48,8 +51,9 @@ Inductive qinstr :=
 | QRecv (dst : nat)                   (* dst := recv_bytes()      (blocks while empty) *)
 | QPoll (timed : flag) (dst : nat)    (* dst := poll([timeout]) *)
 | QClock (dst : nat)                  (* timeout = deadline - monotonic(); dst := (timeout < 0), an oracle *)
-| QExit                               (* the thread's function has returned (Queue._feed after `except Exception`):
-                                         the thread never runs again; its frame is kept as ghost state *)
+| QExit                               (* the thread's function has returned (Queue._feed BEFORE the repair, after its
+                                         `except Exception`): the thread never runs again; not used by the
+                                         programs of the repaired code *)
 (* local instructions *)
 | QStart                              (* if self._thread is None: self._start_thread() *)
 | QBufAppend (r : nat)                (* self._buffer.append(reg r) *)
